@@ -253,7 +253,7 @@ func (w *world) runBackup(vid uint32, dir string) (string, error) {
 		"-server="+w.c.Master.Addr(), "-dir="+dir, fmt.Sprintf("-volumeId=%d", vid))
 	cmd.Dir = w.bkRoot
 	cmd.SysProcAttr = &syscall.SysProcAttr{Setpgid: true}
-	cmd.Env = append(os.Environ(), "GORACE=halt_on_error=0 log_path="+filepath.Join(w.bkRoot, "race-backup"))
+	cmd.Env = append(os.Environ(), "GORACE=halt_on_error=0 clear_shadow_mmap_threshold=1099511627776 log_path="+filepath.Join(w.bkRoot, "race-backup"))
 	var out bytes.Buffer
 	cmd.Stdout = &out
 	cmd.Stderr = &out
@@ -807,7 +807,7 @@ func main() {
 		finish(0)
 	}
 
-	nh := r.Pick(4, 60)
+	nh := r.Pick(4, 40)
 	nops := r.Pick(30, 40)
 	rng := r.SubRng("c37-histories")
 	done := 0
@@ -863,5 +863,5 @@ func main() {
 	}
 	b, _ := json.Marshal(map[string]int64{"writes": r.Counter("writes_ok"), "deletes": r.Counter("deletes_ok"), "compactions": r.Counter("source_compactions"), "backups": r.Counter("backup_runs")})
 	fmt.Println("C37 coverage:", string(b))
-	finish(r.Pick(5, 40))
+	finish(r.Pick(5, 30))
 }
